@@ -56,15 +56,40 @@ func anyRouter(*http.Request, *types.Context) bool { return true }
 // AndMatcher 按顺序符合每一个要求
 //
 // 前一个对象返回的实例将作为下一个对象的输入参数。
+//
+// 如果其中一个对象不匹配，之前的对象对 r 和 ctx 作出的修改将会被撤消。
 func AndMatcher(m ...Matcher) Matcher {
 	return MatcherFunc(func(r *http.Request, ctx *types.Context) bool {
+		path := r.URL.Path
+		var params map[string]string
+		if ctx.Count() > 0 {
+			params = make(map[string]string, ctx.Count())
+			ctx.Range(func(k, v string) { params[k] = v })
+		}
+
 		for _, mm := range m {
 			if !mm.Match(r, ctx) {
+				// 前面的对象可能已经修改了地址和参数，不匹配时不应当有任何修改。
+				r.URL.Path = path
+				restoreParams(ctx, params)
 				return false
 			}
 		}
 		return true
 	})
+}
+
+func restoreParams(ctx *types.Context, params map[string]string) {
+	if ctx.Count() > 0 {
+		keys := make([]string, 0, ctx.Count())
+		ctx.Range(func(k, _ string) { keys = append(keys, k) })
+		for _, k := range keys {
+			ctx.Delete(k)
+		}
+	}
+	for k, v := range params {
+		ctx.Set(k, v)
+	}
 }
 
 // OrMatcher 仅需符合一个要求
